@@ -306,12 +306,13 @@ def main():
         if rc == 0:
             continue
         reps = sorted(glob.glob(os.path.join(rdir, "*-s%d-%d.json" % (seed, i))))
-        if to:
-            infra.append("shard %d exceeded the overall budget of %ds (inconclusive)" % (i, timeout))
-            continue
         if reps:
+            # failing cases that were written before the shard ended (or was stopped at the budget) are verdicts
             for r in reps:
                 violations.append((r, log))
+            continue
+        if to:
+            infra.append("shard %d exceeded the overall budget of %ds (inconclusive)" % (i, timeout))
             continue
         j = os.path.join(scratch, "journal-%d.json" % i)
         died = rc < 0 or "fatal error" in log or "goroutine stack exceeds" in log or "panic:" in log or "unexpected signal" in log
